@@ -62,7 +62,12 @@ PinDom == [
     allocs  |-> PeerSeqs,
     ualloc  |-> PeerSeqs,
     expire  |-> {"zero", "unix0", "whole", "subsec"},
-    meta    |-> {"none", "empty", "ax", "ex", "ae", "two"},   \* ex: {"": x}  ae: {a: ""}  two: {a: x, b: y}
+    \* ex: {"": x}  ae: {a: ""}  two: {a: x, b: y};  mk-*: keys that interfere with the "meta-" prefix of the query
+    \* form or with escaping: inner {"x-meta-y"}, start {"meta-meta-a"}, word {"meta"}, dash {"meta-"},
+    \* collide {"meta-a", "a"} (equal once a prefix is stripped twice), long (2000 characters),
+    \* special {"%+ =&;#?/ unicode"}
+    meta    |-> {"none", "empty", "ax", "ex", "ae", "two", "mk-inner", "mk-start", "mk-word", "mk-dash", "mk-collide",
+                 "mk-long", "mk-special"},
     update  |-> {"none", "v0", "v1"},
     origins |-> {<<>>, <<"o1">>, <<"o1", "o2">>, <<"o2", "o1">>},
     ref     |-> {"nil", "v0", "v1"} ]
@@ -251,6 +256,9 @@ BadFields(r) ==
 (*         under the CID of slot i (a stale pinset: every slot is          *)
 (*         overwritten; what a merge leaves behind is C01/C14's business); *)
 (*         fmt = "export"  List -> JSON lines -> Decode -> Add;            *)
+(*         fmt = "export-real"  the cmdutils state manager of a Raft peer: *)
+(*         ExportState of one peer's snapshot, ImportState into another    *)
+(*         peer's (empty) data folder, offline read of the result;         *)
 (*   any rec, fmt = msgpack | json: the list []*rec as one RPC reply /     *)
 (*         one REST body.                                                  *)
 (* Observation: ok (the whole restore/decode succeeded), got[i] = [ok,     *)
@@ -258,8 +266,8 @@ BadFields(r) ==
 (* number of restored values that belong to no slot.  Every item is judged *)
 (* like a single value, against Proj of the item stored in ITS slot.       *)
 (***************************************************************************)
-StateFormats == {"snapshot-fresh", "snapshot-nonempty", "export"}
-ItemFmt(fmt) == CASE fmt \in {"snapshot-fresh", "snapshot-nonempty"} -> "pb" [] OTHER -> fmt
+StateFormats == {"snapshot-fresh", "snapshot-nonempty", "export", "export-real"}
+ItemFmt(fmt) == CASE fmt \in {"snapshot-fresh", "snapshot-nonempty"} -> "pb" [] fmt = "export-real" -> "export" [] OTHER -> fmt
 SeqFormats(rec) == IF rec = "Pin" THEN StateFormats \cup RpcFormats ELSE RpcFormats
 
 \* the stale content of a non-empty target: slot i holds the value of the next slot
@@ -267,10 +275,16 @@ Stale(items) == [i \in 1..Len(items) |-> items[(i % Len(items)) + 1]]
 
 \* values sequences are drawn from: single-field variations of every base; a decoder that refuses origins
 \* outright (known) would hide everything else in a JSON stream, so origins only travel in snapshots
-SeqPool(rec, fmt) == {v \in Values(rec, 1) : (rec = "Pin" /\ fmt \in {"export", "msgpack", "json"}) => v.origins = <<>>}
+SeqPool(rec, fmt) == {v \in Values(rec, 1) : (rec = "Pin" /\ fmt \in {"export", "export-real", "msgpack", "json"}) => v.origins = <<>>}
 \* all ordered pairs (equal values = equal encoded size; one-field variations = same or nearly same size;
 \* different bases = different sizes) over the variations of the minimal base and all bases
 PairPool(rec, fmt) == {v \in Singles(Dom(rec), MinBase(rec)) \cup Bases(rec) : v \in SeqPool(rec, fmt)}
+
+\* the real export/import writes two Raft snapshots per case: pairs only over the values that differ from the
+\* minimal base in what a stream decoder could carry over from one pin to the next
+RealPool(rec) == {v \in PairPool(rec, "export-real") :
+                    v \in Bases(rec) \/ \E f \in {"meta", "name", "expire", "update", "ref", "allocs"} : v[f] # MinBase(rec)[f]}
+PairsFor(rec, fmt) == IF fmt = "export-real" THEN RealPool(rec) ELSE PairPool(rec, fmt)
 
 SeqCase(rec, fmt, items) ==
     [rec |-> rec, fmt |-> fmt, items |-> items, pre |-> IF fmt = "snapshot-nonempty" THEN Stale(items) ELSE <<>>]
